@@ -14,10 +14,15 @@ INPUTS = {
     "A": [{"user": {"id": 1, "name": "x", "tags": ["a", "b"]}, "items": [{"id": 1, "v": "1"}, {"id": 2, "v": "2.5", "w": None}]},
           {"user": {"id": 2, "name": None}, "items": []}],
     "B": [{"id": "7", "child": {"id": "8", "child": {"id": "9"}}, "été": True}, {"id": "x", "child": None}],
+    # nested keys whose class names collide with names the emitted modules import, and a literal field with 5 values
+    "C": [{"fields": [{"a": 1}], "base_model": {"b": 2}, "list": {"c": "x"}, "kind": "k1"}, {"fields": [], "kind": "k2"},
+          {"kind": "k3"}, {"kind": "k4"}, {"kind": "k5"}],
 }
-OPTS = {"A": dict(cmp=[("percent", 0.5)], unidecode=True), "B": dict(cmp=None, unidecode=False)}
+OPTS = {"A": dict(cmp=[("percent", 0.5)], unidecode=True), "B": dict(cmp=None, unidecode=False), "C": dict(cmp=None, unidecode=True)}
 RENDERS = {"pf": dict(fw="pydantic", structure="flat"), "an": dict(fw="attrs", structure="nested", meta=True),
-           "df": dict(fw="dataclasses", structure="flat", converters=True), "bn": dict(fw="base", structure="nested")}
+           "df": dict(fw="dataclasses", structure="flat", converters=True), "bn": dict(fw="base", structure="nested"),
+           "d3": dict(fw="dataclasses", structure="flat", max_literals=3), "b16": dict(fw="base", structure="flat", max_literals=16),
+           "sf": dict(fw="sqlmodel", structure="flat")}
 
 
 def dump_registry(reg):
